@@ -57,6 +57,9 @@ var theoryLemmas = []theoryLemma{
 	{"empty-least", "len a == 0 && len b > 0 ==> a < b", "(declare-const a Str)(declare-const b Str)(assert (= (s.len a) 0))(assert (> (s.len b) 0))(assert (not (s.lt a b)))"},
 	{"nothing-below-empty", "len b == 0 ==> !(a < b)", "(declare-const a Str)(declare-const b Str)(assert (= (s.len b) 0))(assert (s.lt a b))"},
 	{"empty-unique", "len a == 0 && len b == 0 ==> a == b", "(declare-const a Str)(declare-const b Str)(assert (= (s.len a) 0))(assert (= (s.len b) 0))(assert (not (= a b)))(assert (= (s.diff a b) (s.diff a b)))"},
+	{"cat-right-identity", "len b == 0 ==> a+b == a", theoryDefs2 + "(declare-const a Str)(declare-const b Str)(assert (= (s.len b) 0))(assert (not (= (s.cat a b) a)))(assert (= (s.diff (s.cat a b) a) (s.diff (s.cat a b) a)))"},
+	{"cat-left-identity", "len a == 0 ==> a+b == b", theoryDefs2 + "(declare-const a Str)(declare-const b Str)(assert (= (s.len a) 0))(assert (not (= (s.cat a b) b)))(assert (= (s.diff (s.cat a b) b) (s.diff (s.cat a b) b)))"},
+	{"cat-associative", "(a+b)+c == a+(b+c)", theoryDefs2 + "(declare-const a Str)(declare-const b Str)(declare-const c Str)(assert (not (= (s.cat (s.cat a b) c) (s.cat a (s.cat b c)))))(assert (= (s.diff (s.cat (s.cat a b) c) (s.cat a (s.cat b c))) (s.diff (s.cat (s.cat a b) c) (s.cat a (s.cat b c)))))"},
 	{"prefix-length", "hasPrefix(s,p) ==> len p <= len s", "(declare-const p Str)(declare-const s Str)(assert (s.prefix p s))(assert (> (s.len p) (s.len s)))"},
 	{"prefix-reflexive", "hasPrefix(s,s)", "(declare-const s Str)(assert (not (s.prefix s s)))"},
 	{"prefix-empty", "len p == 0 ==> hasPrefix(s,p)", "(declare-const p Str)(declare-const s Str)(assert (= (s.len p) 0))(assert (not (s.prefix p s)))"},
